@@ -61,7 +61,7 @@ PROPS["C12"] = {
 }
 
 PROPS["C11"] = {
-    "proof_files": ["Proofs/Hub.v", "Proofs/HubLocks.v"],
+    "proof_files": ["Proofs/Hub.v", "Proofs/HubLeak.v", "Proofs/HubLocks.v"],
     "gen_files": ["Gen/HubLocks.v"],
     "corr": ["C11"],
     "trusted_base": ["tie to the code: CORRESPONDENCE - Model/Hub.v is hand-written at lock-phase granularity; histories run on a real peers.Hub with remove / CloseSession / Broadcast parked at verifhook points in harness-chosen orders; outputs, writer logs, routing maps and recovered panics compared in coqc"],
